@@ -19,6 +19,7 @@ def _cond(rng):
         L("ifdef", name=m), L("ifndef", name=m), L("if", expr=("id", m)),
         L("if", expr=("defined", m)), L("if", expr=("eq", ("id", m), ("num", rng.choice([0, 1, 2])))),
         L("if", expr=("and", ("defined", m), ("not", ("defined", rng.choice(MACROS))))),
+        L("if", expr=("minus1", m)),
     ])
 
 
@@ -114,6 +115,12 @@ def random_case(rng, features=()):
         hdrs = [k for k in files if k.endswith(".h")]
         h = rng.choice(hdrs)
         files["cb/src/sub/twin_" + os.path.basename(h)] = list(files[h])
+    if "zerosloc" in features:
+        # code-base files without a single countable line (empty; comments and blank lines only): still members
+        files["cb/src/empty.h"] = []
+        files["cb/inc/notes.h"] = [L("comment"), L("blank"), L("comment")]
+        if rng.random() < 0.5:
+            files["cb/src/sub/todo.c"] = [L("comment")]
     links = {}
     if "links" in features:
         tgt = rng.choice(srcs + [k for k in files if k.endswith(".h")])
@@ -142,7 +149,7 @@ def random_case(rng, features=()):
                         idirs.insert(rng.randrange(len(idirs) + 1), rng.choice(placed[h]))
             defines = []
             for m in rng.sample(CMD_MACROS, rng.randint(0, 2)):
-                defines.append(rng.choice([m, m + "=0", m + "=2", m + "=1"]))
+                defines.append(rng.choice([m, m + "=0", m + "=2", m + "=1"] + ([m + "="] if rng.random() < 0.3 else [])))
             if "redefine" in features and defines:
                 # the same macro given several times with different values (only for order/hash-seed independence
                 # checks: which one wins is the tool's choice, but it must always be the same one)
